@@ -90,7 +90,7 @@ class RealRuntime(rtm.Runtime):
         return val
 
     def err_token(self, ex):
-        if isinstance(ex, (rtm.PlanError, rtm.B1, rtm.CE)) and ex.token not in self.raised:
+        if isinstance(ex, (rtm.PlanError, rtm.B1, rtm.CE, rtm.SI)) and ex.token not in self.raised:
             self.raised[ex.token] = ex        # raised in a worker process: the parent sees a copy
         return super().err_token(ex)
 
